@@ -581,6 +581,14 @@ def proj(stack):
 
 
 def describe(stack):
+    try:
+        return _describe(stack)
+    except Exception:
+        return dict(innermost=None, callee=None, line=None, source=None, paramiko_stack=[], full=[],
+                    error=traceback.format_exc()[-600:])
+
+
+def _describe(stack):
     inner = None
     inner_line = None
     callee = None
@@ -593,16 +601,16 @@ def describe(stack):
         try:
             import linecache
 
-            text = linecache.getline(*inner_line).strip()
+            text = linecache.getline(inner_line[0], inner_line[1] or 0).strip()
         except Exception:
             text = None
     return dict(
         innermost=inner,
         callee=callee,
-        line="%s:%d" % (os.path.basename(inner_line[0]), inner_line[1]) if inner_line else None,
+        line="%s:%s" % (os.path.basename(inner_line[0]), inner_line[1]) if inner_line else None,
         source=text,
         paramiko_stack=list(proj(stack)),
-        full=["%s:%s:%d" % (os.path.basename(fn), q, ln) for fn, q, ln in stack][-14:],
+        full=["%s:%s:%s" % (os.path.basename(fn), q, ln) for fn, q, ln in stack][-14:],
     )
 
 
